@@ -377,3 +377,18 @@ func afterUnlock(site string) {
 		s.yield(site)
 	}
 }
+
+// Point is a statement-level scheduling point (inserted by simgen -stmt-points into selected
+// files): with probability Config.StmtYield the running task gives up the baton here.
+//
+//go:norace
+func Point(site string) {
+	s := cur()
+	if s == nil || s.inspect || s.killing || s.cfg.StmtYield <= 0 || s.current == nil {
+		return
+	}
+	if s.unlockr.Bool(s.cfg.StmtYield) {
+		s.Stats["stmt_yields"]++
+		s.yield(site)
+	}
+}
